@@ -534,6 +534,9 @@ def run(tier: str, replay: str | None = None):
                     cfg = make_cfg(route, S)
                     variants.append({"base": bi, "cfg": cfg, "edits": []})
                     # comments under a disabling configuration
+                    # a file-level comment for a disabled code suppresses nothing: it must be reported unused
+                    if si < 2 and "o" in tags[0] or "t" in tags[0]:
+                        variants.append({"base": bi, "cfg": cfg, "edits": [("own", 1, rng.choice(S), 0)]})
                     cand = single_edits(rng, lines, tags, d0, names, False)
                     for es in rng.sample(cand, min(2, len(cand))):
                         variants.append({"base": bi, "cfg": cfg, "edits": es})
@@ -704,8 +707,13 @@ def run(tier: str, replay: str | None = None):
             hist["special_equal"] += 1
             continue
         hist["special_differs_" + fid] += 1
-        if fid in known_ids and GUARDS[fid](vt) and not GUARDS[fid](nt) and special_model_agrees.get(si):
+        in_class = fid in known_ids and GUARDS[fid](vt) and not GUARDS[fid](nt)
+        if in_class and special_model_agrees.get(si):
             rep.known(fid, known_ids[fid]["what"])
+        elif in_class and si not in special_model_agrees:
+            # the model could not be built (translator / proof broken): the case is in a known class but the
+            # second half of the attribution test cannot be made; the broken obligation is reported instead
+            hist["special_unattributable_model_unavailable"] += 1
         else:
             failing.append({"kind": "failing-input", "what": "diagnostics change when only the content of a string literal changes",
                             "input": {"special": [fid, vt, nt], "cfg": base_cfg}, "observed": rv["out"], "expected": rn["out"],
